@@ -148,11 +148,100 @@ TAB_DESC = {
 }
 
 
-def part_tables(rels, only_keys=None):
+# ---------------------------------------------------------------- wiring by reachability
+# entry points of each property (its statement's API functions); every rule instance about a function / table that the call graph
+# reaches from them is run for the property, in addition to the instances attributed by hand
+PROP_ENTRIES = {
+    "C01": ["isValidCell", "getResolution", "getBaseCellNumber", "isResClassIII"],
+    "C02": ["latLngToCell"],
+    "C03": ["cellToLatLng", "latLngToCell", "getNumCells", "getPentagons", "getRes0Cells", "res0CellCount", "pentagonCount", "isValidCell", "isPentagon"],
+    "C04": ["cellToChildren", "cellToChildrenSize", "cellToParent", "cellToCenterChild"],
+    "C05": ["gridDisk", "gridDiskDistances", "gridDiskDistancesSafe", "gridDiskUnsafe", "gridDiskDistancesUnsafe", "gridDisksUnsafe", "gridRingUnsafe",
+            "areNeighborCells", "maxGridDiskSize"],
+    "C06": ["compactCells", "uncompactCells", "uncompactCellsSize"],
+    "C08": ["cellToBoundary", "cellAreaRads2", "cellAreaKm2", "cellAreaM2"],
+    "C09": ["gridDistance", "cellToLocalIj", "localIjToCell"],
+    "C10": ["cellsToDirectedEdge", "isValidDirectedEdge", "getDirectedEdgeOrigin", "getDirectedEdgeDestination", "directedEdgeToCells", "originToDirectedEdges",
+            "directedEdgeToBoundary", "edgeLengthRads", "edgeLengthKm", "edgeLengthM"],
+    "C11": ["cellToVertex", "cellToVertexes", "vertexToLatLng", "isValidVertex"],
+    "C13": ["cellToChildPos", "childPosToCell", "cellToChildren", "cellToChildrenSize"],
+    "C14": ["gridPathCells", "gridPathCellsSize"],
+    "C15": ["polygonToCellsExperimental", "maxPolygonToCellsSizeExperimental"],
+    "C16": ["cellsToLinkedMultiPolygon", "destroyLinkedMultiPolygon"],
+    "C19": ["getIcosahedronFaces", "maxFaceCount"],
+    "C20": ["h3ToString", "stringToH3"],
+}
+# what triggers a table relation: constant tables ("g:") or functions ("f:") the property's code reaches
+TAB_SYMS = {
+    "T1": ["g:NEW_DIGIT_II", "g:NEW_DIGIT_III", "g:NEW_ADJUSTMENT_II", "g:NEW_ADJUSTMENT_III"],
+    "T2": ["g:baseCellNeighbors", "g:baseCellNeighbor60CCWRots"], "T3": ["g:baseCellNeighbors", "g:baseCellNeighbor60CCWRots"],
+    "T4": ["g:faceIjkBaseCells"], "T5": ["g:faceNeighbors", "g:adjacentFaceDir"], "T6": ["g:faceCenterPoint", "g:faceCenterGeo"],
+    "T8": ["g:directionToVertexNumHex", "g:directionToVertexNumPent", "g:revNeighborDirectionsHex", "f:vertexNumForDirection", "f:directionForVertexNum"],
+    "T9": ["g:maxDimByCIIres", "g:unitScaleByCIIres"], "T10": ["f:_rotate60ccw", "f:_rotate60cw"], "T11": ["g:neighborSetClockwise", "g:neighborSetCounterclockwise"],
+    "T12": ["g:pentagonDirectionFaces"], "T13": ["g:vertsCII", "g:vertsCIII"], "T14": ["g:PENTAGON_ROTATIONS", "g:PENTAGON_ROTATIONS_REVERSE"],
+    "T17": ["g:MAX_EDGE_LENGTH_RADS"], "T19": ["f:_baseCellIsCwOffset"],
+    "T20": ["g:PENTAGON_ROTATIONS_REVERSE_NONPOLAR", "g:PENTAGON_ROTATIONS_REVERSE_POLAR"],
+    "T21": ["f:_upAp7", "f:_upAp7r", "f:_upAp7Checked", "f:_upAp7rChecked"], "T22": ["f:ijkToIj", "f:ijToIjk", "f:ijkToCube", "f:cubeToIjk"],
+}
+_reach = {}
+
+
+def reach(pid, m=None):
+    """(functions, constant globals) reachable from the property's entry points through the call graph"""
+    if pid in _reach:
+        return _reach[pid]
+    from . import rules_alloc
+    m = m or module("release", "ssa")
+    if pid not in PROP_ENTRIES:
+        fns = {f.name for f in m.defined()}
+    else:
+        for e in PROP_ENTRIES[pid]:
+            m.fn(e)
+        fns = rules_alloc.reachable(rules_alloc.call_graph(m), PROP_ENTRIES[pid])
+    gl = set()
+    for fn in fns:
+        f = m.functions.get(fn)
+        if f is None or f.decl or not f.has_body:
+            continue
+        for i in f.all_insts():
+            for o in i.ops:
+                if o[0] == "g":
+                    gl.add(o[1])
+                elif o[0] == "ce":
+                    for leaf in ir.ce_leaves(o):
+                        if leaf[0] == "g":
+                            gl.add(leaf[1])
+    _reach[pid] = (fns, gl)
+    return _reach[pid]
+
+
+def auto_relations(pid):
+    fns, gl = reach(pid)
+    out = []
+    for rel, syms in TAB_SYMS.items():
+        for sy in syms:
+            kind, name = sy.split(":")
+            if kind == "f" and name in fns:
+                out.append(rel); break
+            if kind == "g" and any(g == name or g.startswith(name + ".") or g.endswith("." + name) for g in gl):
+                out.append(rel); break
+    return out
+
+
+def part_tables(rels, only_keys=None, pid=None):
     def run(ctx):
         from . import rules_tab
         m = module("release", "ssa")
-        rules_tab.run(ctx, m, "release", rels, only_keys)
+        rl = list(rels)
+        if pid is not None:
+            for r in sorted(auto_relations(pid), key=lambda x: int(x[1:])):
+                if r not in rl:
+                    rl.append(r)
+        rules_tab.run(ctx, m, "release", rl, only_keys)
+        if True:
+            ctx.explanation += TAB_TXT % "; ".join(TAB_DESC[r] for r in rl) + " "
+            ctx.floor("R-TAB", "relations evaluated", len([o for o in ctx.obligations if o["rule"] == "R-TAB"]), len(rels))
+            return
         ctx.explanation += TAB_TXT % "; ".join(TAB_DESC[r] for r in rels) + " "
         ctx.floor("R-TAB", "relations evaluated", len([o for o in ctx.obligations if o["rule"] == "R-TAB"]), len(rels))
     return run
@@ -187,7 +276,7 @@ def part_bw(pid):
 def part_cform(pid):
     def run(ctx):
         from . import rules_cform
-        n = rules_cform.check(ctx, module("release", "ssa"), "release", [pid])
+        n = rules_cform.check(ctx, module("release", "ssa"), "release", [pid], funcs=reach(pid)[0] if pid in PROP_ENTRIES else None)
         ctx.explanation += ("R-CFORM: the value a function stores is evaluated exactly as an expression DAG over opaque leaves (_ipow(7,e) = 7^e, a callee's "
                             "out-value, a bit field) for the whole finite domain of those leaves and compared with the documented closed form. ")
         ctx.floor("R-CFORM", "closed-form instances for %s" % pid, n, 1)
@@ -229,7 +318,7 @@ def part_bitprov(which, pid=None):
         m = module("release", "ssa")
         n0 = len([o for o in ctx.obligations if o["rule"] == "R-BITPROV"])
         if pid:
-            getattr(rules_bitprov, "check_" + which)(ctx, m, "release", ctx.tier, pid)
+            getattr(rules_bitprov, "check_" + which)(ctx, m, "release", ctx.tier, pid, reach(pid, m)[0])
         else:
             getattr(rules_bitprov, "check_" + which)(ctx, m, "release", ctx.tier)
         ctx.explanation += rules_bitprov.TEXT[which] + " "
@@ -240,7 +329,7 @@ def part_bitprov(which, pid=None):
 def part_hashmod(fns, floor):
     def run(ctx):
         from . import rules_sib
-        n = rules_sib.check_hashmod(ctx, module("release", "ssa"), "release", fns)
+        n = rules_sib.check_hashmod(ctx, module("release", "ssa"), "release", fns if not isinstance(fns, str) else reach(fns)[0])
         ctx.explanation += ("R-SIB hashmod: every open-addressing probe `loc = key % M; ... loc = (loc + 1) % M'` wraps around with the modulus it started "
                             "with (M' is the same SSA value as M); instances are found from the IR (rem of phi+1 whose phi web is fed by a rem and subscripts memory). ")
         ctx.floor("R-SIB", "hash probe loops", n, floor)
@@ -295,7 +384,7 @@ def part_errflow(pid):
             sub = core.Ctx(ctx.pid)
             rules_ret.check(sub, m, "release", ir.exported_api())
             rules_ret.check.last_mod = m
-        n = rules_errflow.check(ctx, m, "release", rules_ret.check.last_sets, None if pid == "C12" else ERRFLOW_CALLERS[pid])
+        n = rules_errflow.check(ctx, m, "release", rules_ret.check.last_sets, None if pid == "C12" else (set(ERRFLOW_CALLERS.get(pid, ())) | reach(pid, m)[0]))
         ctx.explanation += ("R-ERRFLOW: for every used call of an H3Error-returning function and every non-zero code in the callee's value set, the caller explored "
                             "from the call with that result cannot reach `return E_SUCCESS` on an exactly interpreted path (one frozen, justified exception). ")
         if pid == "C12":
@@ -331,19 +420,19 @@ def part_ret(ctx):
 
 
 PARTS = {
-    "C01": [part_guards("C01"), part_bitprov("validity"), part_bitprov("indexops", "C01"), part_tables(["T7"], {"T7": ["isBaseCellPentagonArr"]}), part_cform("C01"), part_wit("C01")],
-    "C02": [part_guards("C02"), part_argmin, part_bitprov("indexops", "C02"), part_tables(["T6", "T16", "T19"]), part_wit("C02")],
-    "C03": [part_guards("C03"), part_argmin, part_bitprov("validity"), part_bitprov("indexops", "C03"), part_tables(["T7", "T4", "T5", "T9", "T19", "T21"], {"T7": ["isBaseCellPentagonArr", "pentagonCount", "res0CellCount", "getRes0Cells", "getPentagons", "baseCellNeighbors:rows", "baseCellNeighbor60CCWRots:rows"]}), part_cform("C03"), part_wit("C03")],
-    "C04": [part_guards("C04"), part_errflow("C04"), part_bitprov("indexops", "C04"), part_drain(["cellToChildren"]), part_cform("C04"), part_tables(["T7"], {"T7": ["isBaseCellPentagonArr"]}), part_wit("C04")],
-    "C05": [part_guards("C05"), part_errflow("C05"), part_bitprov("indexops", "C05"), part_tables(["T1", "T2", "T3", "T10", "T11", "T7", "T19"], {"T7": ["baseCellNeighbors", "baseCellNeighbor60CCWRots"]}), part_cform("C05"), part_hashmod(["_gridDiskDistancesInternal"], 1), part_wit("C05")],
-    "C06": [part_guards("C06"), part_errflow("C06"), part_bitprov("indexops", "C06"), part_drain(["uncompactCells"]), part_bw("C06"), part_cform("C06"), part_hashmod(["compactCells"], 2)],
-    "C08": [part_fold("C08"), part_tables(["T5", "T9", "T13"]), part_cform("C08"), part_wit("C08")],
-    "C09": [part_guards("C09"), part_errflow("C09"), part_bitprov("indexops", "C09"), part_tables(["T1", "T2", "T3", "T10", "T14", "T20", "T21", "T22"]), part_ovf, part_wit("C09")],
-    "C10": [part_guards("C10"), part_errflow("C10"), part_bitprov("indexops", "C10"), part_tables(["T8", "T12"]), part_cform("C10"), part_fold("C10"), part_wit("C10")],
-    "C11": [part_guards("C11"), part_errflow("C11"), part_tables(["T8", "T12", "T7"], {"T7": ["pentagonDirectionFaces"]}), part_wit("C11")],
+    "C01": [part_guards("C01"), part_bitprov("validity"), part_bitprov("indexops", "C01"), part_tables(["T7"], {"T7": ["isBaseCellPentagonArr"]}, pid="C01"), part_cform("C01"), part_wit("C01")],
+    "C02": [part_guards("C02"), part_argmin, part_bitprov("indexops", "C02"), part_tables(["T6", "T16", "T19"], pid="C02"), part_wit("C02")],
+    "C03": [part_guards("C03"), part_argmin, part_bitprov("validity"), part_bitprov("indexops", "C03"), part_tables(["T7", "T4", "T5", "T9", "T19", "T21"], {"T7": ["isBaseCellPentagonArr", "pentagonCount", "res0CellCount", "getRes0Cells", "getPentagons", "baseCellNeighbors:rows", "baseCellNeighbor60CCWRots:rows"]}, pid="C03"), part_cform("C03"), part_wit("C03")],
+    "C04": [part_guards("C04"), part_errflow("C04"), part_bitprov("indexops", "C04"), part_drain(["cellToChildren"]), part_cform("C04"), part_tables(["T7"], {"T7": ["isBaseCellPentagonArr"]}, pid="C04"), part_wit("C04")],
+    "C05": [part_guards("C05"), part_errflow("C05"), part_bitprov("indexops", "C05"), part_tables(["T1", "T2", "T3", "T10", "T11", "T7", "T19"], {"T7": ["baseCellNeighbors", "baseCellNeighbor60CCWRots"]}, pid="C05"), part_cform("C05"), part_hashmod("C05", 1), part_wit("C05")],
+    "C06": [part_guards("C06"), part_errflow("C06"), part_bitprov("indexops", "C06"), part_drain(["uncompactCells"]), part_bw("C06"), part_cform("C06"), part_hashmod("C06", 2)],
+    "C08": [part_fold("C08"), part_tables(["T5", "T9", "T13"], pid="C08"), part_cform("C08"), part_wit("C08")],
+    "C09": [part_guards("C09"), part_errflow("C09"), part_bitprov("indexops", "C09"), part_tables(["T1", "T2", "T3", "T10", "T14", "T20", "T21", "T22"], pid="C09"), part_ovf, part_wit("C09")],
+    "C10": [part_guards("C10"), part_errflow("C10"), part_bitprov("indexops", "C10"), part_tables(["T8", "T12"], pid="C10"), part_cform("C10"), part_fold("C10"), part_wit("C10")],
+    "C11": [part_guards("C11"), part_errflow("C11"), part_tables(["T8", "T12", "T7"], {"T7": ["pentagonDirectionFaces"]}, pid="C11"), part_wit("C11")],
     "C12": [part_guards("C12"), part_ret, part_errdisc, part_errflow("C12"), part_ovf, part_idx, part_bw(None), part_hashmod(None, 5), part_cform("C12"), part_wit("C12")],
-    "C13": [part_guards("C13"), part_errflow("C13"), part_bitprov("indexops", "C13"), part_cform("C13"), part_wit("C13")], "C14": [part_guards("C14"), part_errflow("C14"), part_bw("C14"), part_cform("C14"), part_tables(["T14", "T20", "T21", "T22"])], "C15": [part_guards("C15"), part_errflow("C15"), part_bw("C15"), part_sib, part_tables(["T17", "T18"]), part_wit("C15")],
-    "C19": [part_tables(["T5", "T9"]), part_bw("C19"), part_cform("C19"), part_wit("C19")],
+    "C13": [part_guards("C13"), part_errflow("C13"), part_bitprov("indexops", "C13"), part_cform("C13"), part_wit("C13")], "C14": [part_guards("C14"), part_errflow("C14"), part_bw("C14"), part_cform("C14"), part_tables(["T14", "T20", "T21", "T22"], pid="C14")], "C15": [part_guards("C15"), part_errflow("C15"), part_bw("C15"), part_sib, part_tables(["T17", "T18"], pid="C15"), part_wit("C15")],
+    "C19": [part_tables(["T5", "T9"], pid="C19"), part_bw("C19"), part_cform("C19"), part_wit("C19")],
     "C20": [part_guards("C20"), part_fmt, part_wit("C20")],
 }
 
